@@ -149,9 +149,12 @@ SetToSeq(S) == LET RECURSIVE F(_) F(T) == IF T = {} THEN << >> ELSE LET x == CHO
 
 Known == { [prop |-> viol[k].prop, what |-> viol[k].what, c |-> viol[k].c, p |-> viol[k].p] :
              k \in { j \in 1..Len(viol) : viol[j].run = cur.run } }
+\* On the multi-thread runtime an observation may be taken while another thread is between two effects
+\* (e.g. cancel() answered, actor not yet marked stopped): there the per-observation rules are applied to the
+\* final observation only; on the current-thread runtime (deterministic) to every observation.
 NewViol ==
-  (IF e.ev = "obs" THEN ObsViol(e)
-   ELSE IF e.ev = "end" /\ prev.ev = "obs" THEN EndViol(prev, e)
+  (IF e.ev = "obs" /\ cur.runtime = "current" THEN ObsViol(e)
+   ELSE IF e.ev = "end" /\ prev.ev = "obs" THEN EndViol(prev, e) \cup (IF cur.runtime # "current" THEN ObsViol(prev) ELSE {})
    ELSE {}) \ Known
 
 Next ==
